@@ -115,7 +115,7 @@ fn case_strategy() -> impl Strategy<Value = Case> {
     let own = || proptest::option::weighted(0.8, proptest::collection::vec((0u8..5, coeff()), 0..3));
     (
         0u8..5,
-        prop::sample::select(vec!["c", "curve_", "x1", "v"]),
+        prop::sample::select(vec!["c", "curve_", "x1", "v", "p", "p"]), // "p": the curve's own tags p0, p1, .. then coincide with the custom names
         node_set(),
         proptest::collection::vec(own(), 12),
         prop_oneof![3 => Just(0u8), 1 => Just(1u8), 1 => Just(2u8)],
@@ -152,9 +152,16 @@ impl Property for C12 {
         v.label_if(unsorted_input, "supply:unsorted");
         v.label(if c.via_hook { "constructor:python-facing" } else { "constructor:generic" });
         v.label(intern(format!("nodes:kind{}", c.node_kind % 3)));
+        v.label_if(c.id == "p" && c.node_kind % 3 != 0, "names:custom-coincide-with-own-tags");
         let id_names: Vec<String> = (0..n).map(|i| format!("{}{}", c.id, i)).collect();
         let mut all_names = id_names.clone();
-        all_names.extend((0..5).map(own_name));
+        for nm in (0..5).map(own_name) {
+            // (with the id "p" the curve's own tags p0, p1, .. coincide with custom names: the request
+            // stays a list of distinct names)
+            if !all_names.contains(&nm) {
+                all_names.push(nm);
+            }
+        }
 
         // ---- build, and the model's idea of the initial tagging
         let kind = c.node_kind % 3;
@@ -413,7 +420,7 @@ impl Property for C12 {
     }
 
     fn rule(&self) -> String {
-        "random (rule, curve id, node set as in C11 supplied in shuffled order, node kind: floats / first-order / second-order numbers with custom variable names, optional index base, constructor: generic or Python-facing with an initial order, history of 0-6 order switches over {0,1,2}, 1-5 query dates). A model tracks how the nodes are tagged (none / id+i in date order / custom names) through every transition. After construction and after every switch, for every query: the value equals the float curve's closed form; the number returned is of the curve's order; its gradient read BY NAME over [id0..id(n-1), all custom names] equals the closed-form partials combined by the chain rule (zero for nodes outside the interval in use), at order 2 the Hessian equals the closed-form second partials; ad() reports the order; index_value is base/value of the curve's order with matching gradient, zero before the first node, an error without a base. Non-trivial: >= 2 switches and a query strictly between nodes of a >= 3-node curve.".into()
+        "random (rule, curve id, node set as in C11 supplied in shuffled order, node kind: floats / first-order / second-order numbers with custom variable names (which, for a third of the curves, coincide with the curve's own tags id+i), optional index base, constructor: generic or Python-facing with an initial order, history of 0-6 order switches over {0,1,2}, 1-5 query dates). A model tracks how the nodes are tagged (none / id+i in date order / custom names) through every transition. After construction and after every switch, for every query: the value equals the float curve's closed form; the number returned is of the curve's order; its gradient read BY NAME over [id0..id(n-1), all custom names] equals the closed-form partials combined by the chain rule (zero for nodes outside the interval in use), at order 2 the Hessian equals the closed-form second partials; ad() reports the order; index_value is base/value of the curve's order with matching gradient, zero before the first node, an error without a base. Non-trivial: >= 2 switches and a query strictly between nodes of a >= 3-node curve.".into()
     }
 
     fn floors(&self, tier: Tier) -> Vec<Floor> {
@@ -425,6 +432,7 @@ impl Property for C12 {
             }
         }
         f.push(Floor { label: "supply:unsorted", min: n / 4 });
+        f.push(Floor { label: "names:custom-coincide-with-own-tags", min: n / 20 });
         f.push(Floor { label: "constructor:python-facing", min: n / 4 });
         f.push(Floor { label: "hessian:checked", min: n / 4 });
         f.push(Floor { label: "index_value:before-first-node", min: n / 50 });
